@@ -124,7 +124,7 @@ type StoreCfg struct {
 	NoNoD        bool // never generate addressable events without d tag
 	NoOpenRefs   bool // never reference replaceable addresses / d-less addressable in a tags
 	UnicodeText  bool
-	WeightKind5  int // relative weight of deletion requests (default 2)
+	WeightKind5  int  // relative weight of deletion requests (default 2)
 	ThreeElemRef bool // allow ["e", id, "wss://r"] forms (default true unless NoThreeElem)
 	NoThreeElem  bool
 }
@@ -229,9 +229,13 @@ func (c *StoreCfg) DrawEvent(t *rapid.T) *mocrelay.Event {
 		}
 	}
 	// generic tags
-	n := rapid.IntRange(0, 2).Draw(t, "ntags")
+	n := rapid.IntRange(0, 3).Draw(t, "ntags")
 	for i := 0; i < n; i++ {
-		switch rapid.IntRange(0, 8).Draw(t, "tagkind") {
+		switch rapid.IntRange(0, 9).Draw(t, "tagkind") {
+		case 9:
+			// the same name twice with different values (multi-valued tag)
+			vs := rapid.Permutation([]string{"x", "y", "z"}).Draw(t, "tvs")
+			ev.Tags = append(ev.Tags, mocrelay.Tag{"t", vs[0]}, mocrelay.Tag{"t", vs[1]})
 		case 0:
 			ev.Tags = append(ev.Tags, mocrelay.Tag{"t", rapid.SampledFrom([]string{"x", "y", "z"}).Draw(t, "tv")})
 		case 1:
@@ -287,6 +291,47 @@ func (c *StoreCfg) DrawVersion(t *rapid.T) *mocrelay.Event {
 	Seal(ev)
 	w.Events = append(w.Events, ev)
 	return ev
+}
+
+// DrawVersionOf generates another version of the given event's address.
+func (c *StoreCfg) DrawVersionOf(t *rapid.T, base *mocrelay.Event, label string) *mocrelay.Event {
+	ev := CloneEvent(base)
+	if c.UniqueTs {
+		ev.CreatedAt = c.drawTs(t)
+	} else {
+		ev.CreatedAt = c.TsBase + rapid.Int64Range(0, c.TsSpan).Draw(t, label+"ts")
+	}
+	ev.Content = base.Content + rapid.SampledFrom([]string{"", "v", "w", "u"}).Draw(t, label+"content")
+	Seal(ev)
+	c.World.Events = append(c.World.Events, ev)
+	return ev
+}
+
+// DrawBurst generates 3-4 versions of one address (an existing one if any,
+// else a new one) with independent timestamps, to be offered back to back.
+func (c *StoreCfg) DrawBurst(t *rapid.T) []*mocrelay.Event {
+	var cands []*mocrelay.Event
+	for _, e := range c.World.Events {
+		if _, ok, hasD := AddrOf(e); ok && hasD {
+			cands = append(cands, e)
+		}
+	}
+	var base *mocrelay.Event
+	if len(cands) > 0 && rapid.Bool().Draw(t, "burstexisting") {
+		base = rapid.SampledFrom(cands).Draw(t, "burstbase")
+	} else {
+		base = &mocrelay.Event{Pubkey: rapid.SampledFrom(c.World.Authors).Draw(t, "burstauthor"),
+			Kind: rapid.SampledFrom([]int64{0, 10000, 30000}).Draw(t, "burstkind"), Tags: []mocrelay.Tag{}}
+		if ClassOf(base.Kind) == Addressable {
+			base.Tags = append(base.Tags, mocrelay.Tag{"d", rapid.SampledFrom(DValues).Draw(t, "burstd")})
+		}
+	}
+	n := rapid.IntRange(3, 4).Draw(t, "burstn")
+	var out []*mocrelay.Event
+	for i := 0; i < n; i++ {
+		out = append(out, c.DrawVersionOf(t, base, fmt.Sprintf("burst%d.", i)))
+	}
+	return out
 }
 
 // CloneEvent deep-copies an event.
